@@ -263,7 +263,19 @@ func ResetForSim() {
 	lastDefragDone, lastMapDefragDone = time.Time{}, time.Time{}
 }
 `
-	return os.WriteFile(filepath.Join(dst, "zz_verif_export.go"), []byte(exp), 0644)
+	if err := os.WriteFile(filepath.Join(dst, "zz_verif_export.go"), []byte(exp), 0644); err != nil {
+		return err
+	}
+	// client/network registers a connection in two maps through an unexported method (the listener / dialer code
+	// that calls it needs real sockets): export it for the harness that plays that part
+	netexp := `package network
+
+// generated by vcheck (scratch copy only)
+
+func (c *OneConnection) VerifAddToList()   { c.addToList() }
+func (c *OneConnection) VerifDelFromList() { c.delFromList() }
+`
+	return os.WriteFile(filepath.Join(src, "network", "zz_verif_export.go"), []byte(netexp), 0644)
 }
 
 func (s *scratch) build(harness string, race bool) string {
